@@ -269,6 +269,16 @@ def run(chk, replay=None):
             c, r, k = min(lossy, key=lambda x: val_size(x[0]["v"]))
             chk.violation("a `skip_serializing` field holding a non-default value is lost in the JSON/YAML copy: %s" % summarize(r),
                           {"cases": [strip(c)], "impl": [r]}, suffix="-lossy")
+    # the value-level class that no markup text can express: Some(Unsupported), built directly by the harness
+    r = harness("c18", [{"ty": "lef_some_unsupported"}])[0]
+    chk.cov["evaluations"] += 1
+    if not (r.get("json", {}).get("ok") is True and r.get("yaml", {}).get("ok") is True):
+        ent = known.get("lef-some-unsupported")
+        if ent and "panic" not in r and "crash" not in r:
+            chk.known(ent, None)
+        else:
+            chk.violation("LefLibrary with layers = Some(Unsupported) does not survive the JSON/YAML copy: %s" % summarize(r),
+                          {"cases": [{"ty": "lef_some_unsupported"}], "impl": [r]}, suffix="-someunsupported")
     if viol:
         viol.sort(key=lambda x: val_size(x[0]["v"]))
         c, r, k = viol[0]
